@@ -802,6 +802,10 @@ pub fn type_names_module(defs: &[ast::RootDefinition], out: &mut Vec<ast::Scoped
 
 fn resolve_function(f: &ast::FunctionDefinition, types: &[ast::ScopedIdentifier]) -> ast::FunctionDefinition {
     let mut f = f.clone();
+    f.returntype.return_type = resolve_plain_type(&f.returntype.return_type, types);
+    for p in f.params.iter_mut() {
+        p.param_type = resolve_plain_type(&p.param_type, types);
+    }
     if let Some(b) = &f.body {
         f.body = Some(b.iter().map(|s| resolve_stmt_keep(s, types)).collect());
     }
@@ -816,22 +820,33 @@ fn resolve_stmt_keep(s: &ast::Statement, types: &[ast::ScopedIdentifier]) -> ast
     r
 }
 
-/// the module as the type checker reads it when exactly `types` are type names (function bodies only)
+/// the module as the type checker reads it when exactly `types` are type names (function bodies; the template arguments
+/// of the types of signatures, struct bases / members and globals)
 pub fn resolve_module(defs: &[ast::RootDefinition], types: &[ast::ScopedIdentifier]) -> Vec<ast::RootDefinition> {
     defs.iter()
         .map(|d| match d {
             ast::RootDefinition::Function(f) => ast::RootDefinition::Function(resolve_function(f, types)),
             ast::RootDefinition::Struct(s) => {
                 let mut s = s.clone();
+                s.base_types = s.base_types.iter().map(|b| resolve_plain_type(b, types)).collect();
                 s.members = s
                     .members
                     .iter()
                     .map(|m| match m {
                         ast::StructEntry::Method(f) => ast::StructEntry::Method(resolve_function(f, types)),
-                        other => other.clone(),
+                        ast::StructEntry::Variable(v) => {
+                            let mut v = v.clone();
+                            v.ty = resolve_plain_type(&v.ty, types);
+                            ast::StructEntry::Variable(v)
+                        }
                     })
                     .collect();
                 ast::RootDefinition::Struct(s)
+            }
+            ast::RootDefinition::GlobalVariable(g) => {
+                let mut g = g.clone();
+                g.global_type = resolve_plain_type(&g.global_type, types);
+                ast::RootDefinition::GlobalVariable(g)
             }
             ast::RootDefinition::Namespace(n, inner) => {
                 ast::RootDefinition::Namespace(n.clone(), resolve_module(inner, types))
@@ -1022,7 +1037,8 @@ pub fn ser_struct(d: &ast::StructDefinition) -> SExp {
         flags.push(SExp::atom("template"));
     }
     if !d.base_types.is_empty() {
-        flags.push(SExp::atom("bases"));
+        // printed since 2e907a1: ` : A, B<…>`
+        flags.push(SExp::list("bases", d.base_types.iter().map(ser_type_nodecl).collect()));
     }
     SExp::list("struct", vec![SExp::atom(&d.name.node), SExp::List(members), SExp::List(flags)])
 }
@@ -1052,12 +1068,21 @@ pub fn de_struct(s: &SExp) -> Option<ast::StructDefinition> {
             _ => return None,
         }
     }
-    if !a.get(2)?.as_list()?.is_empty() {
-        return None;
+    let mut base_types = Vec::new();
+    for f in a.get(2)?.as_list()? {
+        if f.head()? != "bases" || !base_types.is_empty() {
+            return None; // template parameters: outside the request language
+        }
+        for t in f.args() {
+            base_types.push(de_type_nodecl(t)?);
+        }
+        if base_types.is_empty() {
+            return None;
+        }
     }
     Some(ast::StructDefinition {
         name: loc(name),
-        base_types: Vec::new(),
+        base_types,
         template_params: ast::TemplateParamList(Vec::new()),
         members,
     })
